@@ -315,6 +315,8 @@ class StmtMixin(ExecBase):
                 self.oblige(st, "line%s::narrow[%s:%s]" % (line, t.id, cls), cls_of(v.t) == class_tag(cls), line, kind="assertion")
                 v = VObj((cls,), v.t)
             st.store[t.id] = v
+            if getattr(st, "unbound_when", None) and t.id in st.unbound_when:
+                st.unbound_when = {a: b for a, b in st.unbound_when.items() if a != t.id}
             return k(st)
         if isinstance(t, (ast.Tuple, ast.List)):
             n = len(t.elts)
@@ -707,7 +709,7 @@ class StmtMixin(ExecBase):
             iv = "_i%d" % ordinal
             self.coerce_loop_locals(st1, spec)
             self.check_invariants(st1, ctx, spec, ordinal, "entry", s.lineno, {iv: VInt(0), "_n%d" % ordinal: VInt(cnt)})
-            sig = (z3.simplify(cnt).get_id(), type(itv).__name__)
+            sig = (z3.simplify(cnt).sexpr(), type(itv).__name__)      # (not the id: z3 recycles the ids of freed terms)
             self.join_loop(s, sig, st1, ctx, k, lambda st_, k_: run_for(st_, k_))
 
         def run_for(st1, k):
@@ -814,6 +816,29 @@ class StmtMixin(ExecBase):
                     newstore[n] = None
                 if newstore[n] is None:
                     del newstore[n]     # differently shaped on different paths: unbound after the join
+        # names bound on some of the joined paths only stay usable on those paths (reading them elsewhere raises)
+        ub = {}
+        allnames = set()
+        for s_ in sts:
+            allnames |= set(s_.store)
+        for n in allnames - names:
+            have = [i for i, s_ in enumerate(sts) if n in s_.store]
+            try:
+                ty = types[n] if n in types else self.join_types([ty_of(sts[i].store[n]) for i in have])
+                filler = fresh_value(m, ty, n)
+                cv = [coerce(sts[i].store[n], ty) if i in have else filler for i in range(len(sts))]
+                r = cv[-1]
+                for i in range(len(cv) - 2, -1, -1):
+                    r = ite_val(sel == i, cv[i], r)
+                newstore[n] = r
+                ub[n] = z3.Or([sel == i for i in range(len(sts)) if i not in have])
+            except (Unsupported, AttributeError, KeyError, TypeError):
+                pass
+        for n in names:
+            conds = [getattr(s_, "unbound_when", {}).get(n) for s_ in sts]
+            if n in newstore and any(c is not None for c in conds):
+                ub[n] = z3.Or([z3.And(sel == i, c) for i, c in enumerate(conds) if c is not None])
+        m.unbound_when = ub
         m.store = newstore
         # heap, cells, ghost output: exact selector-guarded merge
         keys = set()
